@@ -702,3 +702,62 @@ Example C14_ref_layout_examples :
   ref_extended_event ex_extended_event = [31; 102; 114; 97; 7; 2; 7; 8; 1; 9; 0; 0; 1; 65] /\
   ref_local_time_offset ex_lto = [70; 82; 65; 2; 1; 0; 192; 121; 18; 69; 0; 2; 0].
 Proof. repeat split; vm_compute; reflexivity. Qed.
+
+(* ================= (c, continued) the loop inside a larger buffer =================
+   C14_loop_roundtrip_at_offset: the statement of C14_loop_roundtrip_all_tags for a loop that lies at ANY offset of a
+   buffer -- arbitrary bytes `pre` before it and `rest` behind it -- with parseDescriptors started at that offset, which
+   is how the PMT / SDT / NIT / EIT / TOT parsers call it: the result is the entry-wise parsed form (all 25 classes of
+   typed_rt, zero-item bodies as bare headers) and the iterator stops right behind the loop.  The body parsers that
+   read with absolute positions (offsetEnd, i.Offset(), i.Len()) are covered: body_rt is stated at any position.
+   C14_loop_body_at_offset: the same for the loop body writeDescriptors emits behind ANY two bytes that carry its
+   length in their low 12 bits (the SDT and the EIT put running_status / free_CA_mode in the four bits in front).
+   C14_loop_roundtrip_at_cursor: the same for an iterator given by what lies at its offset. *)
+Require Import Proofs.DescOffset.
+
+Theorem C14_loop_roundtrip_at_offset : forall ds ds' out pre rest,
+  enc_descriptors_with_length ds = Ok out -> items_bytes_ok out -> loop_size ds < 4096 ->
+  Forall2 wf_entry ds ds' ->
+  let buf := pre ++ bytes_of_items out ++ rest in
+  parse_descriptors (mk_iter buf (zlen pre)) = Ok (ds', mk_iter buf (zlen pre + 2 + loop_size ds)).
+Proof. exact loop_roundtrip_at. Qed.
+Print Assumptions C14_loop_roundtrip_at_offset.
+
+Theorem C14_loop_body_at_offset : forall ds ds' its pre h0 h1 rest,
+  enc_descriptors ds = Ok its -> items_bytes_ok its -> Forall2 wf_entry ds ds' ->
+  (h0 mod 16) * 256 + h1 mod 256 = loop_size ds ->
+  let buf := pre ++ h0 :: h1 :: bytes_of_items its ++ rest in
+  parse_descriptors (mk_iter buf (zlen pre)) = Ok (ds', mk_iter buf (zlen pre + 2 + loop_size ds)).
+Proof. exact loop_body_at. Qed.
+Print Assumptions C14_loop_body_at_offset.
+
+Theorem C14_loop_roundtrip_at_cursor : forall ds ds' out i rest,
+  enc_descriptors_with_length ds = Ok out -> items_bytes_ok out -> loop_size ds < 4096 ->
+  Forall2 wf_entry ds ds' ->
+  0 <= ioff i -> skipn (Z.to_nat (ioff i)) (ibs i) = bytes_of_items out ++ rest ->
+  parse_descriptors i = Ok (ds', mk_iter (ibs i) (ioff i + 2 + loop_size ds)).
+Proof. exact loop_roundtrip_cursor. Qed.
+Print Assumptions C14_loop_roundtrip_at_cursor.
+
+(* what comes back is a normal form of the writer: it is written as the same items (hence the same bytes), has the
+   same sizes and length bytes, and parses back to itself -- entry by entry and for whole loops (the two length sums are
+   the uint16 one of calcDescriptorsLength and the int one of generatePMT) *)
+Theorem C14_parsed_form_is_normal : forall ds ds', Forall2 wf_entry ds ds' ->
+  enc_descriptors ds' = enc_descriptors ds /\ loop_size ds' = loop_size ds /\
+  calc_descriptors_length ds' = calc_descriptors_length ds /\
+  (forall a, fold_left (fun k d => k + (2 + calc_descriptor_length d)) ds' a =
+             fold_left (fun k d => k + (2 + calc_descriptor_length d)) ds a) /\
+  Forall2 wf_entry ds' ds'.
+Proof. exact wf_entries_same. Qed.
+Print Assumptions C14_parsed_form_is_normal.
+
+(* the domain is inhabited by the six-tag loop ex_all above (AC-3, teletext, empty content, VBI data, local time offset,
+   extended event; every struct Length wrong), placed behind five arbitrary bytes and in front of two: parsing at offset
+   5 returns ex_all_parsed and stops at 5 + 2 + 63 *)
+Example C14_loop_at_offset_example :
+  exists out, enc_descriptors_with_length ex_all = Ok out /\ items_bytes_ok out /\
+    parse_descriptors (mk_iter ([1; 2; 3; 4; 5] ++ bytes_of_items out ++ [171; 205]) 5) =
+      Ok (ex_all_parsed, mk_iter ([1; 2; 3; 4; 5] ++ bytes_of_items out ++ [171; 205]) 70).
+Proof.
+  eexists. split; [vm_compute; reflexivity|]. split; [repeat constructor; cbv; intuition discriminate|].
+  vm_compute. reflexivity.
+Qed.
